@@ -13,11 +13,13 @@ CONFIG = dict(
                "are 0,1,2,.. (no gap, repetition or inversion), whatever was issued before a response has arrived before it (push_before_response), "
                "and once the stages are drained everything has arrived exactly once (drained_all_arrived); a closing session loses a suffix only. "
                "The pre-repair behaviour of D8 (front-local push through the front's own mailbox) and the selfBlockDefend overflow path of Sche.Post are "
-               "proved to break the statement (2-item witnesses). selfBlockDefend=false / assigned nowhere / QueueSize are re-extracted from utils/sche on "
+               "and a send queue that spills over to helper goroutines instead of blocking are proved to break the statement (small witnesses); the bounded send "
+               "queue with a blocked sender is part of the model. selfBlockDefend=false / assigned nowhere / QueueSize are re-extracted from utils/sche on "
                "every run. The model is tied to the code by running the real node (gate-1 + chat-1..3, real ClientSession/ClientSessions/Handler/Forwarder/"
                "sys.pushmsg/sys.call, SmoothFrameMailbox, Sche) in a synctest bubble: scripted handlers issue counted pushes before/after completing, bursts "
                "of 10^3 (quick) to 10^4 (thorough) pushes, virtual sleeps past the 20 ms frame budget (smoothing pauses on back-ends and, via naps, on "
-               "the front), timers, PushMessageByIds, workers posting >999 closures into a busy service (blocking posts), clients closing mid-burst; the "
+               "the front), timers, PushMessageByIds, workers posting >999 closures into a busy service (blocking posts), clients closing mid-burst, clients that stop "
+               "reading until the 9999-slot send queue is full and the front blocks on it (GOMAXPROCS 8 and 1); the "
                "model must accept every client's stream (a confluent search for a front schedule that writes exactly the observed streams) and the "
                "property predicate is evaluated on the implementation's own issue logs and arrival streams.",
     level_note="Partial: proto.actor per-(sender,receiver) FIFO, Go channel FIFO (chSend, chanTask) and net.Conn/TCP ordering are assumptions of the "
@@ -31,15 +33,18 @@ CONFIG = dict(
     audit="Audit/C03.lean",
     required_theorems=["shipped_overflow_path_off", "projection_preserved", "socket_in_issue_order", "arrived_counters", "arrival_position",
                        "push_before_response", "nothing_duplicated", "drained_all_arrived", "closed_loses_only_a_suffix", "front_local_order",
-                       "front_local_order_pre_fix_fails", "overflow_path_reorders", "no_stage_blocks"],
+                       "front_local_order_pre_fix_fails", "overflow_path_reorders", "send_overflow_path_reorders",
+                       "full_queue_blocks_the_front", "no_stage_blocks"],
     harness_pkg="./c03",
     mode="accept",
     reset_prefix="reset",
     runs={
-        "quick": [dict(name="main", env={"VERIF_N": "5000"}, timeout=150)],
-        "thorough": [dict(name="main", env={"VERIF_N": "4000"}, timeout=800),
-                     dict(name="seed2", env={"VERIF_N": "2500"}, seed_offset=1000, timeout=800),
-                     dict(name="seed3", env={"VERIF_N": "2500"}, seed_offset=2000, timeout=800)],
+        "quick": [dict(name="main", env={"VERIF_N": "4000"}, timeout=150),
+                  dict(name="p1", env={"VERIF_N": "700"}, seed_offset=500, procs=1, timeout=150)],
+        "thorough": [dict(name="main", env={"VERIF_N": "40000"}, timeout=800),
+                     dict(name="seed2", env={"VERIF_N": "25000"}, seed_offset=1000, timeout=800),
+                     dict(name="seed3", env={"VERIF_N": "25000"}, seed_offset=2000, timeout=800),
+                     dict(name="p1", env={"VERIF_N": "20000"}, seed_offset=3000, procs=1, timeout=800)],
     },
     trivial=r"^(-|ok n=\d+|open=[\d,]*|bad-op)?$",
     rule="one PRNG (VERIF_SEED). A case = reset n=<1-4 clients> then rounds of requests (one or more per frame) to the front (gate-1) or a back-end "
@@ -49,7 +54,10 @@ CONFIG = dict(
          "mailbox run; scripts of one round start at the same virtual instant on different service goroutines (real parallelism, GOMAXPROCS 8, extra "
          "Gosched at the mailbox's verif yield points). Special cases: front-local push/response shapes (D8), bursts of 200-1000 (quick) / up to 10^4 "
          "(thorough) pushes from 2-4 issuers to one client, a worker posting 990-4000 closures into a sleeping service (task queue full, blocking posts), "
-         "a client closing while bursts for it are under way. Each op runs to quiescence (synctest.Wait) and reports the issue logs (per worker in Post "
+         "a client closing while bursts for it are under way, a client that STOPS READING while > 10000 messages plus the response are issued towards it "
+         "(the session's writer blocks in conn.Write, chSend (9999) fills, the front's goroutine blocks in pushToSend - front-local issuer: inside the handler, "
+         "back-end issuer: inside its mailbox run) with a second client that keeps reading, then reads again (two such cases in the deterministic sweep of "
+         "every run + random ones); runs with GOMAXPROCS 8 and 1. Each op runs to quiescence (synctest.Wait) and reports the issue logs (per worker in Post "
          "order, per service goroutine in execution order) and per client the arrival stream; corpus (the D8 witness) first. Non-trivial = an op that "
          "produced issue or arrival records; distinct = distinct (op, observation) pairs.",
     trusted_base=[
